@@ -23,7 +23,7 @@ ASSUMPTIONS = ["precision symbolic in [1, 4096] for (a),(b); (c) as in C02"]
 BUDGET = {'quick': dict(ob_deadline_s=60, total_s=120), 'thorough': dict(ob_deadline_s=300, total_s=900)}
 BOUNDS = {'quick': 'all entries of the special-value table x 5 rounding modes; sinpi/cospi mantissas of 1..12 bits, exponents -1, 0, 1, 5, which in 0..3; sqrt shapes 1..7 bits'}
 
-def pi_special_grid(rnds):
+def pi_special_grid(rnds, thorough=False):
     """special-value branches returning multiples of pi (shared by C13 and C14)"""
     out = []
     cases = [('mpf_atan2', [y, x]) for y in ('inf', 'ninf') for x in ('pos', 'neg', 'zero', 'inf', 'ninf')]
@@ -33,6 +33,9 @@ def pi_special_grid(rnds):
     for fn, args in cases:
         for rnd in rnds:
             out.append(('checks.fam_elem:pi_special', dict(fn=fn, args=args, prec=5 if rnd in 'fc' else 4, rnd=rnd)))
+            if thorough:
+                for prec in (2, 3, 24, 53):
+                    out.append(('checks.fam_elem:pi_special', dict(fn=fn, args=args, prec=prec, rnd=rnd)))
     return out
 
 
@@ -54,5 +57,5 @@ def obligations(tier, seed=0):
     # the pure-Python integer square root with remainder behind exact square roots at high precision
     for bits in (4, 7, 10, 13):
         obs.append(('checks.fam_twin:sqrtrem_loops', dict(bits=bits)))
-    obs += pi_special_grid(RNDS)
+    obs += pi_special_grid(RNDS, tier == 'thorough')
     return obs
